@@ -147,7 +147,17 @@ def judge(case):
     p = gen.rpt(r)
     if cls in ("zero-line", "zero-segment", "zero-halfline"):
         ctor = {"zero-line": G.Line, "zero-segment": G.Segment, "zero-halfline": G.HalfLine}[cls]
-        form = r.randrange(5 if cls == "zero-line" else 4)
+        form = r.randrange(6 if cls == "zero-line" else 4)
+        if form == 5:
+            # the radial line Line(v, v) built from ONE Vector object (support and direction are the same object), moved by
+            # -v: the move would leave a line without direction and has to be refused like the construction of one
+            d_ = gen.rdir(r, 3)
+            def radial():
+                v_ = _V(G, d_)
+                l_ = G.Line(v_, v_)
+                return l_.move(_V(G, K.mul(d_, -1)))
+            _expect_raise(mu, radial, cls + ":radial-line-moved-onto-its-own-direction-vector", "Line(v, v).move(-v) with one Vector object v")
+            return mu.result()
         if form == 0:
             _expect_raise(mu, lambda: ctor(_P(G, p), _P(G, p)), cls + ":same-points", "%s(P, P)" % ctor.__name__)
         elif form == 1:
